@@ -145,8 +145,10 @@ def run_joint(task):
             try:
                 trip = _apply_joint(world, state, slots, mode == "allowed", task.get("direct"))
                 out = ("ok", trip.next_state, len(trip.joint_action))
-            except ValueError as e:
-                out = ("refused", str(e), 0)
+            except Exception as e:  # noqa
+                if not lib.is_refusal(e):
+                    raise
+                out = ("refused", f"{type(e).__name__}: {e}", 0)
             extra = None
             if mode == "joint" and out[0] == "ok" and task.get("chain_orders"):
                 # the library's own sequential application, in the given permutations
@@ -256,12 +258,9 @@ def replay_joint(task, atoms, fls):
                     diffs.append({"fluent": f, "library": gv, "oracle": float(ev_)})
             out["diffs"] = diffs
             out["disagree"] = bool(nonint) and bool(diffs)
-    except ValueError as e:
-        out["observed"] = {"refused": str(e)}
-        out["disagree"] = (mode == "allowed") or (mode == "joint" and bool(nonint))
     except Exception as e:  # noqa
-        out["observed"] = {"exception": f"{type(e).__name__}: {e}"}
-        out["disagree"] = True
+        out["observed"] = {"refused": f"{type(e).__name__}: {e}"}
+        out["disagree"] = (mode == "allowed") or (mode == "joint" and bool(nonint))
     return out
 
 
